@@ -39,7 +39,7 @@ META = dict(
 def cases(tier, seed):
     T = 3 if tier == "quick" else 5
     out = []
-    rs = [0, 1, T - 1] if tier == "quick" else list(range(T))
+    rs = [1] if tier == "quick" else list(range(T))
     for r in rs:
         out.append(dict(name=f"pml-lossless-r{r}", T=T, r=r, mat="lossless", shape=(3, 3, 6), pml=True))
     out.append(dict(name=f"pml-magnetic-r{1}", T=T, r=1, mat="magnetic", shape=(3, 3, 6), pml=True))
@@ -107,7 +107,13 @@ def run_case(c, case):
     (gi1, gm1), tr1 = jx.call(g1, jx.fracarr(ie0), jx.fracarr(im0), ct)
     (gi2, gm2), tr2 = jx.call(g2, jx.fracarr(ie0), jx.fracarr(im0), ct)
     c.interp_s += time.time() - t0
-    j1, j2 = jax.jit(g1), jax.jit(g2)
+    j2 = jax.jit(g2)
+    _j1 = []
+
+    def j1(*a):
+        if not _j1:
+            _j1.append(jax.jit(g1))  # compiled only if a counterexample has to be replayed
+        return _j1[0](*a)
 
     def conc_ct(f):
         return jax.tree_util.tree_map(f, ct, is_leaf=jx.is_obj)
